@@ -193,7 +193,18 @@ EXPORT errno_t _wcstombs_s_chk(size_t *restrict retvalp, char *restrict dest,
 
     /* l is the strlen, excluding NULL */
     /* libc stores up to len bytes: never more than dmax */
-    l = *retvalp = wcstombs(dest, src, (dest && len > dmax) ? dmax : len);
+    if (dest && len > dmax) {
+        /* the source must then fit completely */
+        const wchar_t *p = src;
+        mbstate_t st;
+        memset(&st, 0, sizeof(st));
+        l = wcsrtombs(dest, &p, dmax, &st);
+        if (l != (size_t)-1 && p != NULL)
+            l = dmax;
+        *retvalp = l;
+    } else {
+        l = *retvalp = wcstombs(dest, src, len);
+    }
 
     if (likely((rsize_t)l < dmax)) {
         if (dest) {
